@@ -53,7 +53,7 @@ def run(ctx):
         ora = lambda p, n=n, e2=e2: G.is_forest(n, e2, p)  # noqa
         if len(set(map(frozenset, e2))) < m:
             ctx.count("acyc.parallel_edges")
-        with ctx.guard(600):
+        with ctx.guard(600 if not thorough else 2400):
             if mode == "pw":
                 arr = (k % 2 == 0)
 
